@@ -133,12 +133,10 @@ def run(repo, rep, tier):
     # 8192 bits: failure naming the size below 2048, the single 2048-bit warning below 3072, nothing from 3072 on; row 1 replaced / appended, row 2 created) ----
 
     # ---- rule 2: size only when measured -----------------------------------------------------------------------------------
+    # (when and with what set_dh_modulus_size is called is decided by the policy models above: for every server policy the size recorded for each algorithm is
+    #  the smallest modulus handed out, and nothing is recorded for a server that refuses every probe -- however the guard and the arguments are spelled)
     sets = [n for m in repo.modules.values() for n in ast.walk(m.tree) if isinstance(n, ast.Call) and isinstance(n.func, ast.Attribute) and n.func.attr == 'set_dh_modulus_size']
-    rep.check('measured', 'set_dh_modulus_size has exactly one call site', len(sets) == 1 and sets[0]._func is gr, sets[0] if sets else gr, 'set_dh_modulus_size call sites: %d' % len(sets))
-    if sets:
-        pcs = [(unparse(t), p) for t, p, k in path_condition(sets[0]) if k == 'if']
-        rep.check('measured', 'the size is recorded only when smallest_modulus > 0', ('smallest_modulus > 0', True) in pcs, sets[0], 'size recorded under %s' % pcs)
-        rep.check('measured', 'the recorded size is the measured one, for the probed algorithm', [unparse(a) for a in sets[0].args] == ['gex_alg', 'smallest_modulus'], sets[0], 'set_dh_modulus_size arguments: %s' % [unparse(a) for a in sets[0].args])
+    rep.ob('measured', 'set_dh_modulus_size call sites: %d (their effect is compared with the server policy by the models)' % len(sets), True)
     # _send_init, interpreted along its no-exception path: with a successful reconnect it requests the group, parses the reply, THEN reads the modulus size and
     # returns (size, False); with a failed reconnect it requests and measures nothing and returns (non-positive sentinel, True).  Exception paths: handlers set no size.
     for reconnect_ok in (True, False):
